@@ -145,10 +145,12 @@ Definition with_lspf (s : layer) (p : option Z) : layer :=
 Record cfg := mkCfg {
   fix_group : bool;   (* c16_group_blend_mode.diff applied *)
   fix_lock : bool;    (* c16_lock_without_block.diff applied *)
-  fix_clip : bool     (* c16_clipping_detached.diff applied *)
+  fix_clip : bool;    (* c16_clipping_detached.diff applied *)
+  fix_ctor : bool     (* /repo commit cc4d99c: Group.new / PixelLayer.frompil put _legacy_name(name) (the name, or "?"
+                         when mac_roman cannot encode it) into the record and frompil also stores a 'luni' block *)
 }.
-Definition orig_cfg : cfg := mkCfg false false false.
-Definition fixed_cfg : cfg := mkCfg true true true.
+Definition orig_cfg : cfg := mkCfg false false false false.
+Definition fixed_cfg : cfg := mkCfg true true true true.
 
 (* ------------------------------------------------------------------ getters *)
 (* Layer.name: tagged_blocks.get_data(UNICODE_LAYER_NAME, record.name) *)
@@ -353,19 +355,25 @@ Definition attach (docw doch : Z) (ancvis : bool) (s : layer) : layer :=
     (l_bottom s) (l_lsct s) (l_lspf s) (l_iopa s) docw doch (l_box s) ancvis (l_pixels s).
 
 (* ------------------------------------------------------------------ constructors of the API *)
+(* _legacy_name(value) *)
+Definition legacy_name (v : list Z) : list Z := if macroman v then v else [qmark].
+
 (* Group.new(name, open_folder): record (0,0,0,0), 'lsct' from the divider kind alone in the original
    code, 'luni' = name; not attached; no protection block;
    four empty channels (digest [pix]) *)
 Definition new_group (c : cfg) (name : list Z) (open_folder : bool) (pix : Z) : layer :=
-  mkLayer KGroup false name (Some name) false true 8 255 bm_norm false 0 0 0 0
+  mkLayer KGroup false (if fix_ctor c then legacy_name name else name) (Some name) false true 8 255 bm_norm false 0 0 0 0
     (Some (if fix_group c
            then mkSdiv (if open_folder then 1 else 2) true (Some bm_pass) None
            else mkSdiv (if open_folder then 1 else 2) false None None))
     None None 0 0 box0 false pix.
 
-(* PixelLayer.frompil(image, psd, name, top, left) of a w x h image: no tagged blocks at all *)
-Definition new_pixel (attached : bool) (name : list Z) (top left w h docw doch pix : Z) : layer :=
-  mkLayer KPixel attached name None false true 8 255 bm_norm false left top (left + w) (top + h)
+(* PixelLayer.frompil(image, psd, name, top, left) of a w x h image: no tagged blocks at all in the original
+   code; since cc4d99c a 'luni' block with the name.  (Both constructors now assert len(name) < 256; the
+   constructors are modelled on the names they accept.) *)
+Definition new_pixel (c : cfg) (attached : bool) (name : list Z) (top left w h docw doch pix : Z) : layer :=
+  mkLayer KPixel attached (if fix_ctor c then legacy_name name else name) (if fix_ctor c then Some name else None)
+    false true 8 255 bm_norm false left top (left + w) (top + h)
     None None None docw doch box0 false pix.
 
 (* ------------------------------------------------------------------ histories *)
